@@ -252,6 +252,26 @@ var smallOrderR = []string{
 	"ecffffffffffffffffffffffffffffffffffffffffffffffffffffffffffff7f",
 	"0000000000000000000000000000000000000000000000000000000000000000",
 	"0000000000000000000000000000000000000000000000000000000000000080",
+	// the four points of order 8
+	"c7176a703d4dd84fba3c0b760d10670f2a2053fa2c39ccc64ec7fd7792ac037a",
+	"c7176a703d4dd84fba3c0b760d10670f2a2053fa2c39ccc64ec7fd7792ac03fa",
+	"26e8958fc2b227b045c3f489f2ef98f0d5dfac05d3c63339b13802886d53fc05",
+	"26e8958fc2b227b045c3f489f2ef98f0d5dfac05d3c63339b13802886d53fc85",
+}
+
+// forgeFor returns a degenerate signature (R of small order, S = 0) that verifies for `key` over msg, if there is one.
+func forgeFor(key, msg []byte) (string, bool) {
+	if len(key) != ed25519.PublicKeySize {
+		return "", false
+	}
+	for _, rh := range smallOrderR {
+		rb, _ := hex.DecodeString(rh)
+		sig := append(rb, make([]byte, 32)...)
+		if ed25519.Verify(key, msg, sig) {
+			return base64.StdEncoding.EncodeToString(sig), true
+		}
+	}
+	return "", false
 }
 
 // forgeZeroKey returns a signature valid for the public key 00..00 over msg, if one of the candidates works.
